@@ -1,7 +1,8 @@
 /-
-  Lemmas for KB.Server's follower read-sync LTS: induction over reachable states and the three inductive
-  invariants used by KB.Props.C18 (code as it is, any interleaving; code as it is, non-overlapping reads;
-  both proposed repairs, any interleaving).
+  Lemmas for KB.Server's follower read-sync LTS: induction over reachable states, monotonicity of the
+  follower's read revision under the monotone store, and the three inductive invariants used by KB.Props.C18
+  (code as it is, any interleaving; code as it is, non-overlapping reads; code as it is + the proposed
+  repair, any interleaving).
 -/
 import KB.Server
 namespace KB.Server
@@ -33,7 +34,30 @@ theorem reachable_induction {vt : Variant} {P : State → Prop} (h0 : ∀ n, P (
     | none => simp [hst] at h
     | some s1 => simp [hst] at h; exact ih s1 s (hs s0 s1 a hp hst) h
 
-/-- Invariant of the code as it is, any interleaving. -/
+/-- With the monotone store (`tso.Commit` since db7d4ff) no step lowers the follower's read revision. -/
+theorem followerRev_step_mono {vt : Variant} (hm : vt.monotoneSet = true) {s s' : State} {st : Step}
+    (h : step vt s st = some s') : s.followerRev ≤ s'.followerRev := by
+  cases st <;> simp only [step] at h
+  case leaderCommit => simp at h; subst h; exact Nat.le_refl _
+  case setRev r =>
+    split at h <;> simp at h
+    · subst h; simp only [hm, if_true]; exact Nat.le_max_left _ _
+    · subst h; exact Nat.le_refl _
+  all_goals (split at h <;> simp at h <;> subst h <;> exact Nat.le_refl _)
+
+theorem followerRev_run_mono {vt : Variant} (hm : vt.monotoneSet = true) {tr : List Step} {s s' : State}
+    (h : run vt s tr = some s') : s.followerRev ≤ s'.followerRev := by
+  induction tr generalizing s with
+  | nil => simp [run] at h; subst h; exact Nat.le_refl _
+  | cons a rest ih =>
+    simp only [run] at h
+    cases hst : step vt s a with
+    | none => simp [hst] at h
+    | some s1 => simp [hst] at h; exact Nat.le_trans (followerRev_step_mono hm hst) (ih h)
+
+/-- Invariant of the code as it is (monotone store, late joiners served), any interleaving.  `stored_le`:
+the follower's read revision is ≥ every value stored so far; `served_ge`: a read is served at a revision ≥
+what it stored itself. -/
 structure InvAsIs (s : State) : Prop where
   begin_le : ∀ r, (s.reads r).phase ≠ .idle → (s.reads r).beginRev ≤ s.leaderRev
   wait : ∀ r v, (s.reads r).phase = .waiting → (s.reads r).late = false → s.flight = .answered (some v) →
@@ -42,9 +66,11 @@ structure InvAsIs (s : State) : Prop where
   own : ∀ r v, (s.reads r).fetched = some v → (s.reads r).late = false → (s.reads r).beginRev ≤ v
   fetched : ∀ r, (s.reads r).phase = .synced ∨ (∃ v, (s.reads r).phase = .served v) → (s.reads r).fetched ≠ none
   nofetch : ∀ r, (s.reads r).fetched ≠ none → (s.reads r).phase = .synced ∨ ∃ v, (s.reads r).phase = .served v
+  stored_le : ∀ r v, (s.reads r).fetched = some v → v ≤ s.followerRev
+  served_ge : ∀ r v w, (s.reads r).phase = .served v → (s.reads r).fetched = some w → w ≤ v
 
 theorem invAsIs_step {s s' : State} {st : Step} (h : step asIs s st = some s') (hi : InvAsIs s) : InvAsIs s' := by
-  obtain ⟨h1, h2, h3, h4, h5, h6⟩ := hi
+  obtain ⟨h1, h2, h3, h4, h5, h6, h7, h8⟩ := hi
   cases st with
   | leaderCommit =>
     simp only [step] at h
@@ -86,6 +112,22 @@ theorem invAsIs_step {s s' : State} {st : Step} (h : step asIs s st = some s') (
 
 theorem invAsIs_reachable : ∀ s, Reachable asIs s → InvAsIs s :=
   reachable_induction (fun n => by constructor <;> simp [init]) (fun _ _ _ hp h => invAsIs_step h hp)
+
+/-- From the invariant: a served read that did not join an already answered fetch is fresh. -/
+theorem InvAsIs.freshOwn {s : State} (hi : InvAsIs s) : FreshOwn s := by
+  intro r v hv hl
+  have hf := hi.fetched r (Or.inr ⟨v, hv⟩)
+  cases hw : (s.reads r).fetched with
+  | none => exact absurd hw hf
+  | some w => exact Nat.le_trans (hi.own r w hw hl) (hi.served_ge r v w hv hw)
+
+/-- … and while it is between its store and its backend read the follower's read revision is fresh for it. -/
+theorem InvAsIs.syncedOwn {s : State} (hi : InvAsIs s) (r : Nat) (hp : (s.reads r).phase = .synced)
+    (hl : (s.reads r).late = false) : (s.reads r).beginRev ≤ s.followerRev := by
+  have hf := hi.fetched r (Or.inl hp)
+  cases hw : (s.reads r).fetched with
+  | none => exact absurd hw hf
+  | some w => exact Nat.le_trans (hi.own r w hw hl) (hi.stored_le r w hw)
 
 /-- Invariant of non-overlapping executions of the code as it is. -/
 structure InvSeq (s : State) : Prop where
